@@ -3,6 +3,7 @@ Helper lemmas (C08): exactness of the `changed` flag of `merge`, well-formedness
 join's output.
 -/
 import HvGht.Lemmas.Compare
+import HvGht.Lemmas.ColtCursor
 
 set_option linter.unusedSimpArgs false
 set_option linter.unusedVariables false
@@ -89,5 +90,46 @@ theorem aux_wf_deepJoin (k n d : Nat) (a b : Ght n) (ha : Wf .set n d a) (hb : W
         subst e
         rw [aux_headAt_append d ra _ (by have := lva ra hra; omega)]
         exact hva.2 ra hra
+
+/-- the node the driver prints for a cursor element is the node whose rows `subRows` collects -/
+theorem aux_nodeAt_subRows (n : Nat) (p : List Key) (t : Ght n) :
+    (match nodeAt n p t with | some ⟨j, c⟩ => grows j c | none => []) = subRows n p t := by
+  induction n generalizing p with
+  | zero => cases p <;> simp [nodeAt, subRows]
+  | succ n ih =>
+    cases p with
+    | nil => simp [nodeAt, subRows]
+    | cons k p =>
+      simp only [nodeAt, subRows]
+      cases hl : t.kids.lookup k with
+      | none => simp
+      | some c => simpa using ih p c
+
+/-- `find_containing_leaf` -/
+theorem aux_findLeaf (sk : Kind) (n d : Nat) (t : Ght n) (row : Row) (h : Wf sk n d t) :
+    ((gfindLeaf n d t row).isSome = true ↔ row ∈ grows n t) ∧
+    ∀ l, gfindLeaf n d t row = some l → row ∈ l.rows ∧ ∀ r ∈ l.rows, r ∈ grows n t := by
+  induction n generalizing d with
+  | zero =>
+    simp only [gfindLeaf, grows]
+    by_cases hm : row ∈ t.toLeaf.rows
+    · have : (t.toLeaf.rows.any fun r => decide (row = r)) = true := by
+        rw [List.any_eq_true]; exact ⟨row, hm, by simp⟩
+      simp only [this, if_true, Option.isSome_some, true_iff, Option.some.injEq]
+      exact ⟨hm, fun l e => by subst e; exact ⟨hm, fun r hr => hr⟩⟩
+    · have : (t.toLeaf.rows.any fun r => decide (row = r)) = false := by
+        rw [List.any_eq_false]; intro r hr e; simp at e; subst e; exact hm hr
+      simp [this, hm]
+  | succ n ih =>
+    simp only [gfindLeaf]
+    rw [aux_mem_grows_succ h]
+    cases hl : t.kids.lookup (headAt d row) with
+    | none => simp
+    | some c =>
+      have hc := aux_wf_child h hl
+      have := ih (d + 1) c hc.1
+      refine ⟨by simpa using this.1, fun l e => ?_⟩
+      obtain ⟨h1, h2⟩ := this.2 l e
+      exact ⟨h1, fun r hr => aux_mem_lrows.mpr ⟨(_, c), aux_lookup_mem hl, h2 r hr⟩⟩
 
 end HvGht
